@@ -162,7 +162,7 @@ func runC01(c *Ctx, variant int) {
 		d.addObj(c01Kinds[w.Choose(len(c01Kinds))])
 	}
 	d.chain = w.Pick(5, 0, 40, 70)
-	steps := w.Range(8, 40)
+	steps := w.Range(8, c.Deep(40))
 	for i := 0; i < steps; i++ {
 		switch w.Choose(12) {
 		case 0, 1, 2, 3:
